@@ -54,6 +54,12 @@ func init() {
 			}},
 		Rule{ID: "C03.d", Explain: "both builders take the secret-key randomiser from randomizers[\"secretkey\"] in Commit, and the secret's response is exactly that randomiser + challenge*secret (symbolic term).",
 			Run: func(P *Program, R *Report) { sharedRandomizerRule(P, R) }},
+		Rule{ID: "C03.e", Explain: "the linked proofs that ProofList.Verify compares are proofs whose own structure was validated: every proof's ChallengeContribution error is tested and leads to rejection, and the challenge is computed from those contributions (the obligations of C02.c on the contributions, same rule) - a shadowed error lets a proof with an invalid structure take part in the secret-key comparison.",
+			Run: func(P *Program, R *Report) {
+				sharedRule(P, R, "C02", "C02.c", "C03.e", func(c string) bool {
+					return strings.Contains(c, "error") || strings.Contains(c, "contributions")
+				})
+			}},
 	)
 }
 
